@@ -18,15 +18,50 @@ class Unsupported(Exception):
     pass
 
 
-class IntEval:
-    def __init__(self, bits=8, signed=True):
-        self.lo = -(1 << (bits - 1)) if signed else 0
-        self.hi = (1 << (bits - 1)) - 1 if signed else (1 << bits) - 1
-        self.prefix = "core::num::<impl %s%d>::" % ("i" if signed else "u", bits)
+import re
 
-    def chk(self, v, what):
-        if not (self.lo <= v <= self.hi):
-            raise Panic("arithmetic overflow in %s (value %d outside %d..%d; a panic in builds with overflow checks)" % (what, v, self.lo, self.hi))
+INT_TY = re.compile(r"^([iu])(8|16|32|64|128|size)$")
+INT_METHOD = re.compile(r"^core::num::<impl ([iu](?:8|16|32|64|128|size))>::(\w+)$")
+
+
+def ty_range(ty):
+    m = INT_TY.match(ty or "")
+    if not m:
+        return None
+    bits = 64 if m.group(2) == "size" else int(m.group(2))
+    if m.group(1) == "i":
+        return -(1 << (bits - 1)), (1 << (bits - 1)) - 1
+    return 0, (1 << bits) - 1
+
+
+class IntEval:
+    def __init__(self, bits=8, signed=True, param_types=None):
+        self.default_ty = "%s%d" % ("i" if signed else "u", bits)
+        self.param_types = dict(param_types or {})
+
+    def ty_of(self, t):
+        h = t[0]
+        if h == "p":
+            return self.param_types.get(t[1], self.default_ty)
+        if h == "num":
+            return t[2] if len(t) > 2 and ty_range(t[2]) else self.default_ty
+        if h == "cast":
+            return t[2] if ty_range(t[2]) else self.default_ty
+        if h == "app":
+            m = INT_METHOD.match(t[1])
+            if m:
+                if m.group(2) == "unsigned_abs":
+                    return "u" + m.group(1)[1:]
+                return m.group(1)
+            return self.default_ty
+        if h in ("+", "-", "*", "/", "%", "neg") and isinstance(t[1], tuple):
+            return self.ty_of(t[1])
+        return self.default_ty
+
+    def chk(self, v, what, ty=None):
+        lo, hi = ty_range(ty or self.default_ty)
+        if not (lo <= v <= hi):
+            raise Panic("arithmetic overflow in %s (value %d outside %d..%d of %s; a panic in builds with overflow checks)" % (what, v, lo, hi, ty or self.default_ty))
         return v
 
     def ev(self, t, env):
@@ -44,6 +79,14 @@ class IntEval:
             return int(v)
         if h == "bool":
             return bool(t[1])
+        if h == "cast":
+            v = self.ev(t[1], env)
+            r = ty_range(t[2])
+            if r is None or isinstance(v, bool):
+                raise Unsupported("cast to " + str(t[2]))
+            lo, hi = r
+            span = hi - lo + 1
+            return (v - lo) % span + lo        # `as` between integer types wraps (never panics)
         if h in ("and", "or"):
             a = self.ev(t[1], env)
             if h == "and":
@@ -56,7 +99,7 @@ class IntEval:
             return {"==": a == b, "<": a < b, "<=": a <= b}[h]
         if h in ("+", "-", "*"):
             a, b = self.ev(t[1], env), self.ev(t[2], env)
-            return self.chk({"+": a + b, "-": a - b, "*": a * b}[h], T.show(t))
+            return self.chk({"+": a + b, "-": a - b, "*": a * b}[h], T.show(t), self.ty_of(t))
         if h in ("/", "%"):
             a, b = self.ev(t[1], env), self.ev(t[2], env)
             if b == 0:
@@ -64,33 +107,37 @@ class IntEval:
             q = abs(a) // abs(b)
             if (a < 0) != (b < 0):
                 q = -q
-            self.chk(q, T.show(t))
+            self.chk(q, T.show(t), self.ty_of(t))
             return q if h == "/" else a - q * b
         if h == "neg":
-            return self.chk(-self.ev(t[1], env), T.show(t))
-        if h == "app" and t[1].startswith(self.prefix):
-            m = t[1][len(self.prefix):]
+            return self.chk(-self.ev(t[1], env), T.show(t), self.ty_of(t))
+        m = INT_METHOD.match(t[1]) if h == "app" else None
+        if m:
+            ty, name = m.group(1), m.group(2)
+            lo, hi = ty_range(ty)
             xs = [self.ev(x, env) for x in t[3]]
-            if m == "abs":
-                return self.chk(abs(xs[0]), "%s.abs()" % xs[0])
-            if m == "wrapping_abs":
+            if name == "abs":
+                return self.chk(abs(xs[0]), "%s.abs()" % xs[0], ty)
+            if name == "wrapping_abs":
                 v = abs(xs[0])
-                return v if v <= self.hi else self.lo
-            if m == "unsigned_abs":
+                return v if v <= hi else lo
+            if name == "unsigned_abs":
                 return abs(xs[0])
-            if m == "signum":
+            if name == "signum":
                 return (xs[0] > 0) - (xs[0] < 0)
-            if m == "is_negative":
+            if name == "is_negative":
                 return xs[0] < 0
-            if m == "is_positive":
+            if name == "is_positive":
                 return xs[0] > 0
-            if m == "rem_euclid":
+            if name == "rem_euclid":
                 if xs[1] == 0:
                     raise Panic("rem_euclid by zero")
-                if xs[0] == self.lo and xs[1] == -1:
+                if xs[0] == lo and xs[1] == -1:
                     raise Panic("overflow in rem_euclid")
                 return xs[0] % abs(xs[1])
-            raise Unsupported("integer method " + m)
+            if name in ("min", "max") and len(xs) == 2:
+                return min(xs) if name == "min" else max(xs)
+            raise Unsupported("integer method " + name)
         raise Unsupported("construct " + T.show(t)[:80])
 
     def pick(self, outs, env):
